@@ -27,7 +27,14 @@ fn gen_static_read(rng: &mut Rng, points: &[PointCfg]) -> Vec<ReqHeader> {
             3 => {
                 // event classes first (integrity-poll style)
                 headers.push(class_header(1, None));
-                headers.push(class_header(2, if rng.chance(1, 4) { Some(rng.range(1, 3) as u16) } else { None }));
+                headers.push(class_header(
+                    2,
+                    if rng.chance(1, 4) {
+                        Some(rng.range(1, 3) as u16)
+                    } else {
+                        None
+                    },
+                ));
                 headers.push(class_header(3, None));
             }
             _ => {
@@ -57,7 +64,12 @@ fn gen_static_read(rng: &mut Rng, points: &[PointCfg]) -> Vec<ReqHeader> {
                         Range::Range16(a, b)
                     }
                 };
-                headers.push(ReqHeader { group, var, range, data: vec![] });
+                headers.push(ReqHeader {
+                    group,
+                    var,
+                    range,
+                    data: vec![],
+                });
             }
         }
     }
@@ -101,7 +113,13 @@ impl Scenario for ReadScenario {
     }
 
     fn stub_components(&self) -> Vec<&'static str> {
-        vec!["physical layer (SimSocket)", "TCP accept loop", "user callbacks (recording stubs)", "scripted master peer (reference codec)", "user threads (lock-point injection)"]
+        vec![
+            "physical layer (SimSocket)",
+            "TCP accept loop",
+            "user callbacks (recording stubs)",
+            "scripted master peer (reference codec)",
+            "user threads (lock-point injection)",
+        ]
     }
 
     fn generate(&self, rng: &mut Rng, _tier: Tier) -> SoutCase {
@@ -120,7 +138,11 @@ impl Scenario for ReadScenario {
         let mut clock = 7_000_000u64;
         let mut script = Vec::new();
         if cfg.unsolicited {
-            script.push(Op::Confirm { uns: true, seq: ConfSel::Expected, from: Who::Master });
+            script.push(Op::Confirm {
+                uns: true,
+                seq: ConfSel::Expected,
+                from: Who::Master,
+            });
         }
         // some initial values
         for _ in 0..rng.urange(0, 12) {
@@ -130,7 +152,13 @@ impl Scenario for ReadScenario {
         for _ in 0..reads {
             if rng.chance(1, 3) {
                 let u = gen_update(rng, &cfg.points, &mut clock);
-                script.push(Op::UpdateAtLock { site: rng.pick(&["select", "write_response_headers", "get_events_info", ""]).to_string(), skip: rng.below(2) as u8, update: u });
+                script.push(Op::UpdateAtLock {
+                    site: rng
+                        .pick(&["select", "write_response_headers", "get_events_info", ""])
+                        .to_string(),
+                    skip: rng.below(2) as u8,
+                    update: u,
+                });
             }
             script.push(read_op(gen_static_read(rng, &cfg.points)));
             // walk through the series
@@ -139,23 +167,61 @@ impl Scenario for ReadScenario {
                 if rng.chance(1, 12) {
                     // something that must be ignored arrives inside the confirm window, the right confirm only after it
                     match rng.below(3) {
-                        0 => script.push(Op::Confirm { uns: false, seq: ConfSel::Offset(rng.range(1, 15) as u8), from: Who::Master }),
-                        1 => script.push(Op::Confirm { uns: true, seq: ConfSel::Expected, from: Who::Master }),
+                        0 => script.push(Op::Confirm {
+                            uns: false,
+                            seq: ConfSel::Offset(rng.range(1, 15) as u8),
+                            from: Who::Master,
+                        }),
+                        1 => script.push(Op::Confirm {
+                            uns: true,
+                            seq: ConfSel::Expected,
+                            from: Who::Master,
+                        }),
                         _ => script.push(Op::LinkStatusRequest),
                     }
-                    script.push(Op::SleepRel { base: TimeBase::ConfirmTimeout, delta_ms: *rng.pick(&[-1i64, 1, 1]), since_last_tx: true });
-                    script.push(Op::Confirm { uns: false, seq: ConfSel::Expected, from: Who::Master });
+                    script.push(Op::SleepRel {
+                        base: TimeBase::ConfirmTimeout,
+                        delta_ms: *rng.pick(&[-1i64, 1, 1]),
+                        since_last_tx: true,
+                    });
+                    script.push(Op::Confirm {
+                        uns: false,
+                        seq: ConfSel::Expected,
+                        from: Who::Master,
+                    });
                     continue;
                 }
                 match rng.below(12) {
-                    0..=5 => script.push(Op::Confirm { uns: false, seq: ConfSel::Expected, from: Who::Master }),
-                    6 => script.push(Op::Confirm { uns: false, seq: ConfSel::Offset(rng.range(1, 15) as u8), from: Who::Master }),
+                    0..=5 => script.push(Op::Confirm {
+                        uns: false,
+                        seq: ConfSel::Expected,
+                        from: Who::Master,
+                    }),
+                    6 => script.push(Op::Confirm {
+                        uns: false,
+                        seq: ConfSel::Offset(rng.range(1, 15) as u8),
+                        from: Who::Master,
+                    }),
                     7 => script.push(Op::Update(gen_update(rng, &cfg.points, &mut clock))),
                     8 => {
                         let u = gen_update(rng, &cfg.points, &mut clock);
-                        script.push(Op::UpdateAtLock { site: rng.pick(&["write_response_headers", "clear_written_events", "get_events_info"]).to_string(), skip: 0, update: u });
+                        script.push(Op::UpdateAtLock {
+                            site: rng
+                                .pick(&[
+                                    "write_response_headers",
+                                    "clear_written_events",
+                                    "get_events_info",
+                                ])
+                                .to_string(),
+                            skip: 0,
+                            update: u,
+                        });
                     }
-                    9 => script.push(Op::SleepRel { base: TimeBase::ConfirmTimeout, delta_ms: *rng.pick(&[-1i64, 1]), since_last_tx: true }),
+                    9 => script.push(Op::SleepRel {
+                        base: TimeBase::ConfirmTimeout,
+                        delta_ms: *rng.pick(&[-1i64, 1]),
+                        since_last_tx: true,
+                    }),
                     10 => script.push(Op::Repeat),
                     _ => {
                         if rng.bool() {
@@ -253,7 +319,11 @@ impl ReadOracle {
     }
 
     /// what the series must carry as static data, or None if the request contains a header this oracle does not model
-    fn expected_for(&self, headers: &[refapp::HeaderInfo], snap: &BTreeMap<(PointType, u16), StaticVal>) -> Option<Vec<Expect>> {
+    fn expected_for(
+        &self,
+        headers: &[refapp::HeaderInfo],
+        snap: &BTreeMap<(PointType, u16), StaticVal>,
+    ) -> Option<Vec<Expect>> {
         let mut out = Vec::new();
         for h in headers {
             let selected: Vec<(PointType, u8, Option<(u16, u16)>)> = if h.group == 60 {
@@ -283,8 +353,23 @@ impl ReadOracle {
                 if h.var != 0 && t != PointType::OctetString && !static_vars(t).contains(&h.var) {
                     return None;
                 }
-                vec![(t, if t == PointType::OctetString { 0 } else { h.var }, range)]
-            } else if crate::verif::refcodec::app::layout(h.group, if h.var == 0 { 1 } else { h.var }).map(|l| l.is_event).unwrap_or(false) || h.group == 111 {
+                vec![(
+                    t,
+                    if t == PointType::OctetString {
+                        0
+                    } else {
+                        h.var
+                    },
+                    range,
+                )]
+            } else if crate::verif::refcodec::app::layout(
+                h.group,
+                if h.var == 0 { 1 } else { h.var },
+            )
+            .map(|l| l.is_event)
+            .unwrap_or(false)
+                || h.group == 111
+            {
                 Vec::new() // event header: C03's business
             } else {
                 return None;
@@ -299,8 +384,19 @@ impl ReadOracle {
                     let cfg = &self.ledger.points[&(*pt, *index)];
                     let mut v = if var == 0 { cfg.svar } else { var };
                     // bit-packed variations are only used for plainly ONLINE points
-                    if v == 1 && matches!(t, PointType::Binary | PointType::DoubleBit | PointType::BinaryOutputStatus) {
-                        let mask = if t == PointType::DoubleBit { 0x3F } else { 0x7F };
+                    if v == 1
+                        && matches!(
+                            t,
+                            PointType::Binary
+                                | PointType::DoubleBit
+                                | PointType::BinaryOutputStatus
+                        )
+                    {
+                        let mask = if t == PointType::DoubleBit {
+                            0x3F
+                        } else {
+                            0x7F
+                        };
                         if val.flags & mask != 0x01 {
                             v = 2;
                         }
@@ -365,7 +461,11 @@ impl Oracle for ReadOracle {
             self.snapshot = None;
         }
         self.confirm_sent = None;
-        let sent = if step.link_up { step.sent.clone() } else { None };
+        let sent = if step.link_up {
+            step.sent.clone()
+        } else {
+            None
+        };
         let mut evs: Vec<(u64, Ev)> = Vec::new();
         for tl in &step.timeline {
             let o = match tl {
@@ -375,7 +475,10 @@ impl Oracle for ReadOracle {
             evs.push((o, Ev::Tl(tl)));
         }
         for (i, (t, cb)) in step.callbacks.iter().enumerate() {
-            evs.push((step.callback_orders.get(i).copied().unwrap_or(0), Ev::Cb(*t, cb)));
+            evs.push((
+                step.callback_orders.get(i).copied().unwrap_or(0),
+                Ev::Cb(*t, cb),
+            ));
         }
         for rx in &step.received {
             evs.push((rx.order, Ev::Frag(rx)));
@@ -402,13 +505,18 @@ impl Oracle for ReadOracle {
                 }
                 Ev::Cb(_, cb) => {
                     if let Cb::Info(s) = cb {
-                        if s.starts_with("solicited_confirm_timeout") || s.starts_with("solicited_confirm_wait_new_request") {
+                        if s.starts_with("solicited_confirm_timeout")
+                            || s.starts_with("solicited_confirm_wait_new_request")
+                        {
                             // the series is over: nothing more of it may be transmitted
                             if let Some(sr) = self.series.as_mut() {
                                 if !sr.finished {
                                     sr.finished = true;
                                     sr.awaiting_confirm = None;
-                                    self.counters.entry("probe.series_aborted".into()).and_modify(|x| *x += 1).or_insert(1);
+                                    self.counters
+                                        .entry("probe.series_aborted".into())
+                                        .and_modify(|x| *x += 1)
+                                        .or_insert(1);
                                 }
                             }
                         }
@@ -426,7 +534,10 @@ impl Oracle for ReadOracle {
                         }
                         continue;
                     }
-                    if func == refapp::FUNC_READ && s.bytes[0] & 0xF0 == 0xC0 && !matches!(step.op, Op::Repeat) {
+                    if func == refapp::FUNC_READ
+                        && s.bytes[0] & 0xF0 == 0xC0
+                        && !matches!(step.op, Op::Repeat)
+                    {
                         match refapp::decode_objects(&s.bytes[2..], false) {
                             Ok((headers, _)) => self.last_read = Some((s.bytes[0] & 0x0F, headers)),
                             Err(_) => self.last_read = None,
@@ -464,7 +575,10 @@ impl Oracle for ReadOracle {
                         // an echo of the first fragment (repeated READ during the wait) is byte-identical: keep the series
                         if series.is_none() {
                             if let Some(sr) = self.series.as_mut() {
-                                if !sr.finished && sr.fragments == 1 && matches!(step.op, Op::Repeat) {
+                                if !sr.finished
+                                    && sr.fragments == 1
+                                    && matches!(step.op, Op::Repeat)
+                                {
                                     // re-sending the fragment restarts its confirm timer
                                     sr.last_tx = t;
                                     continue;
@@ -481,7 +595,9 @@ impl Oracle for ReadOracle {
                             Some(s) => s,
                             None => continue,
                         };
-                        if matches!(step.op, Op::Repeat) && Some(frag.ctrl.seq) == sr.awaiting_confirm {
+                        if matches!(step.op, Op::Repeat)
+                            && Some(frag.ctrl.seq) == sr.awaiting_confirm
+                        {
                             // echo of the fragment awaiting confirmation: restarts its confirm timer
                             sr.last_tx = t;
                             continue;
@@ -497,7 +613,10 @@ impl Oracle for ReadOracle {
                             return Some(Violation::new(
                                 "C11/sequence-not-consecutive",
                                 "",
-                                format!("step {}: fragment seq {} where {} is expected", step.op_index, frag.ctrl.seq, sr.seq_next),
+                                format!(
+                                    "step {}: fragment seq {} where {} is expected",
+                                    step.op_index, frag.ctrl.seq, sr.seq_next
+                                ),
                             ));
                         }
                         // only after the matching confirm, sent in time
@@ -530,11 +649,22 @@ impl Oracle for ReadOracle {
                     if (!frag.ctrl.fin || has_events) && !frag.ctrl.con {
                         return Some(Violation::new(
                             "C11/confirmation-not-requested",
-                            if !frag.ctrl.fin { "non-final-fragment" } else { "event-bearing-fragment" },
-                            format!("step {}: fragment seq {} FIN={} events={} without CON", step.op_index, frag.ctrl.seq, frag.ctrl.fin, has_events),
+                            if !frag.ctrl.fin {
+                                "non-final-fragment"
+                            } else {
+                                "event-bearing-fragment"
+                            },
+                            format!(
+                                "step {}: fragment seq {} FIN={} events={} without CON",
+                                step.op_index, frag.ctrl.seq, frag.ctrl.fin, has_events
+                            ),
                         ));
                     }
-                    sr.awaiting_confirm = if frag.ctrl.con { Some(frag.ctrl.seq) } else { None };
+                    sr.awaiting_confirm = if frag.ctrl.con {
+                        Some(frag.ctrl.seq)
+                    } else {
+                        None
+                    };
                     // static objects
                     if sr.understood {
                         for m in meas.iter().filter(|m| !m.is_event) {
@@ -543,13 +673,30 @@ impl Oracle for ReadOracle {
                                 other => {
                                     let kind = match other {
                                         None => "more-objects-than-selected",
-                                        Some(e) if e.index as u32 == m.index && e.group == m.group && e.var == m.var => "value-differs-from-snapshot",
-                                        Some(e) if e.index as u32 == m.index && e.group == m.group => "variation-differs",
+                                        Some(e)
+                                            if e.index as u32 == m.index
+                                                && e.group == m.group
+                                                && e.var == m.var =>
+                                        {
+                                            "value-differs-from-snapshot"
+                                        }
+                                        Some(e)
+                                            if e.index as u32 == m.index && e.group == m.group =>
+                                        {
+                                            "variation-differs"
+                                        }
                                         Some(_) => "wrong-object-or-order",
                                     };
-                                    let current = self.ledger.mirror.get(&(m.ptype, m.index as u16)).cloned();
+                                    let current =
+                                        self.ledger.mirror.get(&(m.ptype, m.index as u16)).cloned();
                                     let leak = match (other, &current) {
-                                        (Some(e), Some(c)) if kind != "wrong-object-or-order" && *c != e.val && m.value == Some(c.value) => " (equals the CURRENT value: a later update leaked in)",
+                                        (Some(e), Some(c))
+                                            if kind != "wrong-object-or-order"
+                                                && *c != e.val
+                                                && m.value == Some(c.value) =>
+                                        {
+                                            " (equals the CURRENT value: a later update leaked in)"
+                                        }
                                         _ => "",
                                     };
                                     return Some(Violation::new(
@@ -574,7 +721,10 @@ impl Oracle for ReadOracle {
                         }
                         sr.finished = !frag.ctrl.con;
                         if sr.fragments >= 2 {
-                            self.counters.entry("probe.multi_fragment_series_completed".into()).and_modify(|x| *x += 1).or_insert(1);
+                            self.counters
+                                .entry("probe.multi_fragment_series_completed".into())
+                                .and_modify(|x| *x += 1)
+                                .or_insert(1);
                             if sr.updates_during > 0 {
                                 self.nontrivial = true;
                             }
@@ -584,7 +734,12 @@ impl Oracle for ReadOracle {
                             // the last fragment still awaits its confirm; nothing else may follow
                             sr.finished = true;
                         }
-                        self.fp = mix(&[self.fp, f.min(6) as u64, u.min(3) as u64, (n / 10).min(10) as u64]);
+                        self.fp = mix(&[
+                            self.fp,
+                            f.min(6) as u64,
+                            u.min(3) as u64,
+                            (n / 10).min(10) as u64,
+                        ]);
                     }
                 }
             }
